@@ -97,6 +97,24 @@ def iter_cases(ctx, conf, init_variants=True, want_random=True, with_reuse=True,
         v = tuple(x for p_ in pieces for x in p_)
         c += 1
         yield v, params, rng.choice(("tuple", "char", "bytes")), rng.choice(tok.DELIVERY), "large_max_length"
+    # the range between the random tuples (max_length <= 12) and the large ones (>= 257): every power-of-two neighbourhood,
+    # with and without an initial phase, on streams of up to 2000 frames whose runs cluster around the tuple's critical lengths
+    rng = ctx.rng("mid")
+    for i in range(40 if conf["L"] < 10 else 4000):
+        max_len = rng.choice((13, 15, 16, 17, 24, 31, 32, 33, 50, 63, 64, 65, 100, 127, 128, 129, 200, 255, 256))
+        min_len = rng.choice((1, 2, max_len // 2, max_len - 1, max_len, rng.randint(1, max_len)))
+        max_sil = rng.choice((0, 1, max_len // 3, max_len - 2, max_len - 1, rng.randint(0, max_len - 1)))
+        if init_variants and rng.random() < 0.4:
+            init_min = rng.choice((2, 3, max_len // 2, max_len - 1, rng.randint(2, max_len - 1)))
+            ims = rng.choice((0, 1, 2, max_sil, max_sil + 1, max_len))
+        else:
+            init_min, ims = rng.choice(((0, 0), (1, 0), (0, 2)))
+        params = (min_len, max_len, max_sil, init_min, ims, rng.choice(G.MODES))
+        v = G.structured_random(rng, params, min(2000, rng.choice((3, 8, 14)) * max_len))
+        c += 1
+        yield v, params, rng.choice(tok.KIND_NAMES), rng.choice(tok.DELIVERY), "mid_max_length"
+        if (c & 63) == 0 and ctx.out_of_time():
+            return
     # the same whole numbers handed over as other integer types (numpy scalars of every width, IntEnum), and `generator=True`
     # spelled 1 / numpy.True_: results are bound by the same statements
     rng = ctx.rng("dress")
